@@ -408,6 +408,13 @@ def _autoshapes(ctx, prog, S, M):
     ctx.rule("R20.4", "auto shapes are written with prst = MSO_AUTO_SHAPE_TYPE.to_xml(id) into a:prstGeom/@prst and read "
                       "back with from_xml of the same attribute")
     spec = prog.modules.get("pptx.spec")
+    if spec is not None and "autoshape_types" not in spec.assigns:
+        # the table moved to another module and is re-exported, or lives somewhere else altogether: the one module that defines it
+        r_ = prog.resolve(spec, "autoshape_types") if "autoshape_types" in spec.imports else None
+        spec = r_[1] if isinstance(r_, tuple) and r_ and r_[0] == "expr" else None
+    if spec is None:
+        owners_ = [m_ for m_ in prog.modules.values() if "autoshape_types" in m_.assigns]
+        spec = owners_[0] if len(owners_) == 1 else None
     if spec is None or "autoshape_types" not in spec.assigns:
         raise AnalysisError("anchor vanished: pptx.spec.autoshape_types")
     tbl_node = spec.assigns["autoshape_types"]
